@@ -190,11 +190,11 @@ def impl_dict(case):
     elif op == 'getlist':
         f = lambda: d[list(sel)]
         if all(k in dict(before) for k in sel): exp = ('map', [(k, dict(before)[k]) for k in first_occ(sel)])
-        else: claim = False
+        else: exp = ('err', 'KeyError')          # item access of an absent key
     elif op == 'gettuple':
         f = lambda: d[tuple(sel)]
         if all(k in dict(before) for k in sel): exp = ('vals', [dict(before)[k] for k in sel])
-        else: claim = False
+        else: exp = ('err', 'KeyError')
     elif op == 'attr':
         f = lambda: [getattr(d, sel[0])]
         if sel[0] in dict(before): exp = ('vals', [dict(before)[sel[0]]])
